@@ -202,12 +202,118 @@ def _m_next(eng, args, kwargs):
     raise Unsupported("next()")
 
 
+# ------------------------------------------------- abstract AST for walk_ast
+# An immutable AST given by ghost functions over node references R0 .. ENDALL-1 (0 = None), numbered in DOCUMENT ORDER:
+#   W_KIND(x) ASTType value, W_NCH(x) number of children, W_CHILD(x, j) the j-th child, W_PAR(x) parent, W_END(x) first reference
+#   behind the subtree of x, W_LABEL(x) code of a TREE node's value, W_V[c](x) the four numbers of a NODE,
+#   W_RK(x) number of NODE-kind references before x, W_ENCL(x) the TREE node x lies in (0 = none).
+W_KIND = z3.Function("ast_kind", I, I)
+W_NCH = z3.Function("ast_nchildren", I, I)
+W_CHILD = z3.Function("ast_child", I, I, I)
+W_PAR = z3.Function("ast_parent", I, I)
+W_END = z3.Function("ast_end", I, I)
+W_LABEL = z3.Function("ast_label", I, I)
+W_V = [z3.Function("ast_" + c, I, z3.RealSort()) for c in ("x", "y", "z", "r")]
+W_RK = z3.Function("ast_points_before", I, I)
+W_ENCL = z3.Function("ast_enclosing_tree", I, I)
+A_WALK = ("C15 abstraction (walk_ast): the AST is an immutable tree given by ghost functions over node references (kind, children, "
+          "parent, value); `node.children` is the sequence child(x, 0 .. nch(x)), `node.value` the four numbers of a NODE or the text of a TREE label "
+          "(compared with literals through an injective code); a write to an AST node is refused")
+
+
+class NodeVal(tuple):
+    """`.value` of an abstract AST node: unpacks like the four numbers of a NODE, compares with a str like a TREE label"""
+
+    def __new__(cls, ref):
+        o = super().__new__(cls, [Sym(f(ref), "real") for f in W_V])
+        o.ref = ref
+        return o
+
+    def __pyvc_compare__(self, eng, op, a, b):
+        import ast as _ast
+
+        other = b if a is self else a
+        if isinstance(op, (_ast.Eq, _ast.NotEq)) and isinstance(other, str):
+            r = _sb(W_LABEL(self.ref) == str_code(other))
+            return r if isinstance(op, _ast.Eq) else eng.unop(_ast.Not(), r)
+        return NotImplemented
+
+
+class Kids:
+    """`.children` of an abstract AST node (possibly reversed): an immutable sequence"""
+
+    def __init__(self, ref, rev=False):
+        self.ref, self.rev = ref, rev
+
+    def __pyvc_snapshot__(self, memo):
+        return self
+
+    def __pyvc_sequence__(self, eng):
+        n = W_NCH(self.ref)
+        if self.rev:
+            return n, (lambda k: Sym(W_CHILD(self.ref, n - 1 - to_z3(k, "int")), "oref"))
+        return n, (lambda k: Sym(W_CHILD(self.ref, to_z3(k, "int")), "oref"))
+
+    def __pyvc_getattr__(self, eng, name):
+        raise Unsupported(f"children.{name} on the abstract AST (the AST is immutable)")
+
+
+_prev_reversed = models.BUILTIN_MODELS.get(reversed)
+
+
+def _m_reversed(eng, args, kwargs):
+    if len(args) == 1 and isinstance(args[0], Kids):
+        return Kids(args[0].ref, not args[0].rev)
+    return _prev_reversed(eng, args, kwargs)
+
+
+def walk_extend_hook(eng, recv, src):
+    """contract option extend_hook: `lst.extend(<pairs over a symbolic sequence>)` on a symbolic list of tuples gives a list whose
+    columns are fresh constants DEFINED pointwise (old entries kept, new entries = the source's, in order) instead of lambda terms"""
+    from .values import Iter
+
+    inner = src
+    if isinstance(inner, Iter):
+        if inner.consumed:
+            return None
+        inner.consumed = True
+        inner = inner.seq
+    if not (isinstance(inner, PList) and inner.items is None and recv.items is None and inner.tup == recv.tup and len(inner.kinds) == len(recv.kinds)):
+        raise Unsupported("extend of a symbolic list by this kind of iterable")
+    from .values import sort_of, zint
+
+    n0, k = zint(recv.n), zint(inner.n)
+    i = z3.Int(fresh_name("ex"))
+    cols = []
+    for c0, c1, k0 in zip(recv.cols, inner.cols, recv.kinds):
+        c = z3.Const(fresh_name(recv.name + "_ext"), z3.ArraySort(I, sort_of(k0)))
+        new_elem = z3.simplify(z3.Select(c1, i - n0))
+        eng.assume(z3.ForAll([i], z3.Implies(z3.And(i >= 0, i < n0), z3.Select(c, i) == z3.Select(c0, i)), patterns=[z3.Select(c, i)]))
+        eng.assume(z3.ForAll([i], z3.Implies(z3.And(i >= n0, i < n0 + k), z3.Select(c, i) == new_elem), patterns=[z3.Select(c, i)]))
+        cols.append(c)
+    recv.cols = cols
+    recv.n = z3.simplify(n0 + k)
+    eng.assumptions.add("list.extend on a symbolic list: the result is the old entries followed by the source's entries in order (defined pointwise)")
+    return None
+
+
 # ------------------------------------------------------------ scalar attrs
 _prev_scalar_attr = models.scalar_attr
 
 
 def _scalar_attr(eng, v, name):
     st = _state(eng)
+    if st is not None and st.get("walk") and isinstance(v, Sym) and v.kind == "oref":
+        eng.assumptions.add(A_WALK)
+        if name not in ("type", "value", "children"):
+            raise Unsupported(f"attribute {name} of an abstract AST node (walk_ast)")
+        if not eng.spec_mode and not eng.branch(_sb(v.z != 0)):
+            raise ProgExc(AttributeError, f"'NoneType' object has no attribute '{name}'")
+        if name == "type":
+            return SymEnum(W_KIND(v.z), _mod().ASTType)
+        if name == "value":
+            return NodeVal(v.z)
+        return Kids(v.z)
     if st is not None and isinstance(v, Sym):
         if v.kind == "oref" and name in ("type", "value", "lineno", "column"):
             if not eng.spec_mode and not eng.branch(_sb(v.z != 0)):
@@ -430,6 +536,7 @@ def install():
     ProgExc.__pyvc_getattr__ = _exc_getattr
     m = _mod()
     models.EXTRA_MODELS[next] = _m_next
+    models.EXTRA_MODELS[reversed] = _m_reversed
     models.EXTRA_MODELS[str.upper] = _m_upper
     models.EXTRA_MODELS[m.ASTNode] = _m_astnode
     models.EXTRA_MODELS[m.AST] = _m_ast
